@@ -50,8 +50,9 @@ def run_mbt(ctx, module, consts, label, base_heap="Heap0", invariants=("Emit", "
     for f in (outfile, basefile):
         if os.path.exists(os.path.join(d, f)):
             os.remove(os.path.join(d, f))
+    # a big Java stack: recursive operators of the specification walk 65536-element containers
     ctx.tlc(module, cfg, simulate=simulate, depth=depth, timeout=timeout, label=label,
-            workers=workers)
+            workers=workers, xss="512m")
     vec = os.path.join(d, outfile)
     if not os.path.exists(vec) or os.path.getsize(vec) == 0:
         raise core.Broken("%s: the specification emitted no vectors" % label)
